@@ -1,5 +1,6 @@
 import Heph.Proofs.TransKotlinPrinted
 import Heph.Props.C12Scala
+import Heph.Props.C12Groovy
 import Heph.Spec.Brackets
 /-!
 # C12 — translations are faithful to the program's declarations and annotations (Kotlin modelled)
